@@ -222,7 +222,7 @@ int main(void) {
 		for (char *t = strtok_r(copy, " \n", &save); t && nt < 8; t = strtok_r(NULL, " \n", &save)) tok[nt++] = t;
 		if (nt < 2) { free(copy); continue; }
 		snprintf(vh_case_tag, sizeof(vh_case_tag), "%.200s", line);
-		alarm(60);
+		vh_watchdog(3, 30); /* a case costs milliseconds of CPU time (messages <= 8 KiB): 3 s of CPU time (30 s of wall clock) without an answer = the code under test does not terminate */
 		if (!strcmp(tok[0], "selftest")) {
 			do_selftest(tok[1]);
 		} else {
@@ -233,7 +233,7 @@ int main(void) {
 			else if (!strcmp(tok[0], "probe") && 7 == nt) do_probe(a, tok[2], tok[3], tok[4], tok[5], tok[6]);
 			else printf("{\"error\":\"args\"}\n");
 		}
-		alarm(0);
+		vh_watchdog(0, 0);
 		free(copy);
 	}
 	free(line);
